@@ -13,7 +13,10 @@ what the parser exposes with the *components*, never with another parse:
 
 Spaces: (1) the full product of single-block documents; (2) all ordered pairs and (3) all ordered triples
 of blocks over a fixed 30-block pool, with every choice of 1-2 blank lines at each block boundary; all of
-them with 0, 1 and 2 leading blank lines; (4) near-duplicates: a set of 25 "twin" blocks that differ from one base
+them with 0, 1 and 2 leading blank lines (thorough tier: change-line sequences up to length 4 with the full author x
+date product and of length 5 with the authors paired with the dates; pairs over the pool x the full author x date product
+= 270 blocks, triples over the pool x 3 author/date pairings = 90 blocks, and all ordered quadruples over the pool with
+every choice of separators - see bounds()); (4) near-duplicates: a set of 25 "twin" blocks that differ from one base
 block in exactly one detail (amount/kind/presence of white space inside the urgency comment, a key=value value, the
 change text, the author name or the date; letter case of a key, value, urgency value, comment, package, distribution,
 author; order of the extra pairs): each alone, all ordered pairs and triples of them in one text, every ordered pair
@@ -58,17 +61,28 @@ PRISTINE_IMPORTS = ["debian.changelog"]     # what mc.zygote imports before it f
 
 
 def bounds(tier):
-    return {
+    out = {
         "package": 3, "version": 3, "distributions": 4, "urgency": "3 (one with a comment)",
         "extra_pairs": "3 (none, one pair, two pairs incl. upper-case key and a value with an inner blank)",
         "change_line_shapes": 6,
-        "change_lines_per_block": {"quick": "all sequences of length 0..2 (43)", "thorough": "all sequences of length 0..3 (259)"}[tier],
+        "change_lines_per_block": {
+            "quick": "all sequences of length 0..2 (43)",
+            "thorough": "all sequences of length 0..%d (%d) with the full author x date product; all %d sequences of length "
+                        "%d with the 3 authors paired with the 3 dates" % (
+                            _maxlen(tier), sum(6 ** L for L in range(_maxlen(tier) + 1)), 6 ** DEEP_LEN, DEEP_LEN)}[tier],
         "author_x_date": {"quick": "3 authors paired with 3 dates (3)", "thorough": "full product 3 x 3 (9)"}[tier],
         "leading_blank_lines": "0..2",
-        "single_block_documents": {"quick": 3 * 41796, "thorough": 3 * 755244}[tier],
-        "block_pool": POOL_SIZE,
-        "pairs": "all 30^2 ordered pairs x separator of 1..2 blank lines x 0..2 leading blank lines",
-        "triples": "all 30^3 ordered triples x (1..2)^2 separators x %s leading blank lines" % (
+        "single_block_documents": 108 * 9 * (sum(6 ** L for L in range(_maxlen(tier) + 1)) * len(_author_dates(tier)) +
+                                             (6 ** DEEP_LEN * 3 if tier != "quick" else 0)),
+        "block_pool": POOL_SIZE if tier == "quick" else
+        "%d; pairs: the %d blocks x the full author x date product = %d blocks; triples: the %d blocks x 3 author/date "
+        "pairings = %d blocks; four-block documents: the %d blocks" % (
+            POOL_SIZE, POOL_SIZE, len(_AD_SHIFTS_PAIRS[tier]) * POOL_SIZE, POOL_SIZE, len(_AD_SHIFTS_TRIPLES[tier]) * POOL_SIZE,
+            POOL_SIZE),
+        "pairs": "all %d^2 ordered pairs x separator of 1..2 blank lines x 0..2 leading blank lines"
+                 % (len(_AD_SHIFTS_PAIRS[tier]) * POOL_SIZE),
+        "triples": "all %d^3 ordered triples x (1..2)^2 separators x %s leading blank lines" % (
+            len(_AD_SHIFTS_TRIPLES[tier]) * POOL_SIZE,
             "0 (quick tier, to stay inside the 30 s limit)" if tier == "quick" else "0..2"),
         "near_duplicates": (
             "%d twin blocks = 1 base block + %d one-detail variants (urgency comment: two blanks / tab / two leading blanks / "
@@ -83,11 +97,14 @@ def bounds(tier):
             "from a zygote that imported the library and never ran it (mc.pristine), i.e. independent of anything "
             "parsed before; all others run in the worker process" % (TWINS, TWINS - 1, TWINS ** 2, TWINS ** 3, TWINS ** 2, TWINS)),
         "urgency_x_pairs_spellings": "%d urgency spellings (3 of the product, %d white-space/case variants, %d comments with "
-                                     "parentheses: %r) x %d extra-pair spellings (3 of the product, %d white-space/case/order "
-                                     "variants, %d with parentheses in values: %r) (the %d combinations of the single-block "
+                                     "parentheses: %r, %d comments with a semicolon: %r) x %d extra-pair spellings (3 of the "
+                                     "product, %d white-space/case/order variants, %d with parentheses in values: %r, %d with a "
+                                     "semicolon in a value: %r) (the %d combinations of the single-block "
                                      "product left out) x %d change-line sequences x 0..2 leading blank lines on one block"
-                                     % (N_URG_ALL, len(_ND_COMMENTS) + 2, len(_PAREN_COMMENTS), _PAREN_COMMENTS, N_KV_ALL,
+                                     % (N_URG_ALL, len(_ND_COMMENTS) + 2, len(_PAREN_COMMENTS), _PAREN_COMMENTS,
+                                        len(_SEMI_COMMENTS), _SEMI_COMMENTS, N_KV_ALL,
                                         len(_ND_KV), len(_PAREN_KV), [", ".join("%s=%s" % (k, v) for k, v in kv) for kv in _PAREN_KV],
+                                        len(_SEMI_KV), [", ".join("%s=%s" % (k, v) for k, v in kv) for kv in _SEMI_KV],
                                         9, len(_POOL_CHG)),
         "input_forms": "%d forms %r x documents over %d blocks (%d twins, 5 long-component blocks, %d pool blocks): each "
                        "block alone and followed by the next block of the list (separator 1 or 2 blank lines), x 0..2 "
@@ -100,6 +117,10 @@ def bounds(tier):
         "sweep": "one legal character at a time in one component of an otherwise fixed single block: " + ", ".join(
             "%s %s x %d" % (name, " / ".join(tpls).replace("%s", "<c>"), len(chars)) for name, tpls, chars in sweep_plan()),
     }
+    if tier != "quick":
+        out["quadruples"] = ("all %d^4 ordered quadruples over the %d-block pool x (1..2)^3 separators, no leading blank line"
+                             % (POOL_SIZE, POOL_SIZE))
+    return out
 
 
 def assumptions():
@@ -116,7 +137,9 @@ def assumptions():
         "bytes | str | IO[str] | Iterable[str] | Iterable[bytes]); all ten forms are accepted by the unchanged library; "
         "lines of the line-wise forms are the generator's own lines (not a re-split of the text), bytes are UTF-8",
         "urgency comments and extra-pair values are free text without ',' (the heading is split at commas by dpkg and by "
-        "the library alike); parentheses in them need not balance",
+        "the library alike); parentheses in them need not balance; they may contain ';' (the heading regex of dpkg and of "
+        "the library ends the distributions at the first ';' of the line and takes everything behind it as the key=value "
+        "list; the unchanged library reads 'urgency=low (a;b)' as urgency 'low' with the comment ' (a;b)')",
         "seed rotates only letters/words inside components (package word, suite names, change text, author name); "
         "the classes of the six regexes see the same character classes for every seed",
         "near-duplicates: white space INSIDE the urgency comment, inside a key=value value, inside change text, inside the "
@@ -172,18 +195,22 @@ _ND_KV = [[["X-a", "b"], ["y", "c  d"]], [["X-a", "b"], ["y", "c\td"]], [["X-a",
 _PAREN_COMMENTS = [" (", " (a", " a)", " (sorry :-( )", " )(", " (see NEWS) (b"]
 _PAREN_KV = [[["a", "("], ["b", ")"]], [["b", ")"], ["a", "("]], [["a", "(x"], ["b", "y)"]], [["a", "("], ["y", "c d"]],
              [["a", "(("], ["b", "c"], ["X-a", "d"]]]
-N_URG_ALL = 3 + len(_ND_COMMENTS) + 2 + len(_PAREN_COMMENTS)
-N_KV_ALL = 3 + len(_ND_KV) + len(_PAREN_KV)
+# comments / values with a semicolon: the heading's own ';' (the one that ends the distributions) is the FIRST one of the
+# line; whatever follows it is the key=value list, semicolons included
+_SEMI_COMMENTS = [" (a;b)", " ;x"]
+_SEMI_KV = [[["k", "a;b"]]]
+N_URG_ALL = 3 + len(_ND_COMMENTS) + 2 + len(_PAREN_COMMENTS) + len(_SEMI_COMMENTS)
+N_KV_ALL = 3 + len(_ND_KV) + len(_PAREN_KV) + len(_SEMI_KV)
 TWINS = 25
 
 
 def urg_all(C):
     return (list(C["urg"]) + [("medium", c) for c in _ND_COMMENTS] + [("MEDIUM", " (see NEWS)"), ("Medium", " (see NEWS)")] +
-            [("low", c) for c in _PAREN_COMMENTS])
+            [("low", c) for c in _PAREN_COMMENTS + _SEMI_COMMENTS])
 
 
 def kv_all(C):
-    return [[list(kv) for kv in k] for k in C["kv"]] + [[list(kv) for kv in k] for k in _ND_KV + _PAREN_KV]
+    return [[list(kv) for kv in k] for k in C["kv"]] + [[list(kv) for kv in k] for k in _ND_KV + _PAREN_KV + _SEMI_KV]
 
 
 def twins(C):
@@ -281,6 +308,37 @@ def pool(C):
     assert {repr(b[5]) for b in blocks} == {repr(k) for k in C["kv"]}
     assert {l for b in blocks for l in b[6]} == set(C["chg"])
     return blocks
+
+
+# multi-block pools: the pool blocks with their author / date replaced.  Shift k stands for (author + k // 3, date + k % 3)
+# (mod 3), so shift 0 is the pool block itself; the pools of pairs, triples and quadruples are nested (each contains the
+# next), which is what the prefix accounting of the units relies on.
+_AD_SHIFTS_PAIRS = {"quick": (0,), "thorough": tuple(range(9))}       # thorough: the full author x date product
+_AD_SHIFTS_TRIPLES = {"quick": (0,), "thorough": (0, 4, 8)}           # thorough: three pairings (every author, every date)
+
+
+def shifted_pool(C, shifts):
+    """-> len(shifts) * POOL_SIZE distinct blocks: for every shift (in the given order) the pool with author and date
+    moved on by it; the first POOL_SIZE blocks are the pool itself when shifts[0] == 0"""
+    P = pool(C)
+    out = []
+    for k in shifts:
+        for b in P:
+            a, d = C["auth"].index(b[7]), C["date"].index(b[8])
+            nb = [list(map(list, c)) if i == 5 else list(c) if i == 6 else c for i, c in enumerate(b)]
+            nb[7] = C["auth"][(a + k // 3) % 3]
+            nb[8] = C["date"][(d + k % 3) % 3]
+            out.append(nb)
+    assert len({repr(b) for b in out}) == len(out)
+    return out
+
+
+def pair_pool(C, tier):
+    return shifted_pool(C, _AD_SHIFTS_PAIRS[tier])
+
+
+def triple_pool(C, tier):
+    return shifted_pool(C, _AD_SHIFTS_TRIPLES[tier])
 
 
 # ------------------------------------------------------------------------------------------------
@@ -524,7 +582,11 @@ def nontrivial(case):
 # work units
 
 def _maxlen(tier):
-    return 2 if tier == "quick" else 3
+    return 2 if tier == "quick" else 4
+
+
+DEEP_LEN = 5          # thorough: change-line sequences of this length with the authors paired with the dates
+TRIPLE_GROUP = 10     # thorough: second blocks per triple unit
 
 
 def _author_dates(tier):
@@ -557,11 +619,24 @@ def units(tier, seed):
             for v in range(3):
                 for d in range(4):
                     out.append(("single", lead, p, v, d))
-    for i in range(POOL_SIZE):
+    if tier != "quick":
+        for lead in range(3):
+            for p in range(3):
+                for v in range(3):
+                    for d in range(4):
+                        out += [("single-deep", lead, p, v, d, c0) for c0 in range(6)]
+    npairs = len(_AD_SHIFTS_PAIRS[tier]) * POOL_SIZE
+    ntriples = len(_AD_SHIFTS_TRIPLES[tier]) * POOL_SIZE
+    for i in range(npairs):
         out.append(("pair", i))
-    for i in range(POOL_SIZE):
-        for j in range(POOL_SIZE):
-            out.append(("triple", i, j))
+    for i in range(ntriples):
+        if tier == "quick":
+            for j in range(ntriples):
+                out.append(("triple", i, j))
+        else:
+            out += [("triple", i, (j, min(j + TRIPLE_GROUP, ntriples))) for j in range(0, ntriples, TRIPLE_GROUP)]
+    if tier != "quick":
+        out += [("quad", i, j) for i in range(POOL_SIZE) for j in range(POOL_SIZE)]
     out += [("sweep", name) for name, _t, _c in sweep_plan()]
     return out
 
@@ -584,11 +659,16 @@ def unit_cost(u, tier):
     if u[0] == "single":
         n = sum(6 ** L for L in range(_maxlen(tier) + 1))
         return 9 * n * len(_author_dates(tier))
+    if u[0] == "single-deep":
+        return 9 * 6 ** (DEEP_LEN - 1) * 3
     if u[0] == "pair":
-        return 2 * POOL_SIZE * 3 * 2
+        return 2 * POOL_SIZE * len(_AD_SHIFTS_PAIRS[tier]) * 3 * 2
     if u[0] == "sweep":
         return 130
-    return 3 * POOL_SIZE * len(_triple_leads(tier)) * 4
+    if u[0] == "quad":
+        return 4 * POOL_SIZE ** 2 * 8
+    nj = u[2][1] - u[2][0] if isinstance(u[2], tuple) else 1
+    return 3 * POOL_SIZE * len(_AD_SHIFTS_TRIPLES[tier]) * len(_triple_leads(tier)) * 4 * nj
 
 
 def _rank(case):
@@ -782,6 +862,33 @@ def run_unit(u, tier, seed):
         part.sample(case)
         part.extra["single-block documents"] += k
         return part
+    if u[0] == "single-deep":
+        # change-line sequences of length DEEP_LEN that start with shape c0; authors paired with dates as in the quick
+        # tier; shorter sequences (and the prefixes above the first change line) belong to the "single" units
+        _, lead, p, v, d, c0 = u
+        ads = _author_dates("quick")
+        part.max_depth = lead + 1 + DEEP_LEN + 1
+        k = 0
+        for rest in itertools.product(range(6), repeat=DEEP_LEN - 1):
+            cs = (c0,) + rest
+            part.states += 1
+            part.transitions += 1
+            for ui in range(3):
+                part.states += 1
+                part.transitions += 1
+                for ki in range(3):
+                    part.states += 1
+                    part.transitions += 1
+                    for a, dt in ads:
+                        part.states += 1
+                        part.transitions += 1
+                        case = {"lead": lead, "blocks": [mkblock(C, p, v, d, ui, ki, cs, a, dt)], "seps": []}
+                        _do(part, case)
+                        k += 1
+        if (p, v, d, c0) == (0, 0, 0, 0):
+            part.sample(case)
+        part.extra["single-block documents"] += k
+        return part
     if u[0] == "sweep":
         cases = sweep_cases(u[1])
         part.max_depth = 4
@@ -799,8 +906,28 @@ def run_unit(u, tier, seed):
             part.extra["sweep documents"] += 1
         part.sample(cases[0])
         return part
-    P = pool(C)
+    if u[0] == "quad":
+        # (block i, sep1, block j, sep2, block k, sep3, block l) over the pool; shorter prefixes belong to the triple units
+        P = pool(C)
+        _, i, j = u
+        part.max_depth = 4 * 7 + 6
+        for sep1 in (1, 2):
+            for sep2 in (1, 2):
+                for k in range(POOL_SIZE):
+                    for sep3 in (1, 2):
+                        part.states += 1
+                        part.transitions += 1
+                        for l in range(POOL_SIZE):
+                            part.states += 1
+                            part.transitions += 1
+                            case = {"lead": 0, "blocks": [P[i], P[j], P[k], P[l]], "seps": [sep1, sep2, sep3]}
+                            _do(part, case)
+                            part.extra["four-block documents"] += 1
+        if j == 0:
+            part.sample(case)
+        return part
     if u[0] == "pair":
+        P = pair_pool(C, tier)
         i = u[1]
         part.max_depth = 2 + 2 + 5 + 2 + 7 + 2
         for lead in range(3):
@@ -809,7 +936,7 @@ def run_unit(u, tier, seed):
             for sep in (1, 2):
                 part.states += 1
                 part.transitions += 1
-                for j in range(POOL_SIZE):
+                for j in range(len(P)):
                     part.states += 1
                     part.transitions += 1
                     case = {"lead": lead, "blocks": [P[i], P[j]], "seps": [sep]}
@@ -817,23 +944,25 @@ def run_unit(u, tier, seed):
                     part.extra["two-block documents"] += 1
         part.sample(case)
         return part
-    _, i, j = u
+    P = triple_pool(C, tier)
+    _, i, js = u
     part.max_depth = 2 + 3 * 7 + 4
-    for lead in _triple_leads(tier):
-        for sep1 in (1, 2):
-            part.states += 1              # (lead, block i, sep1, block j); shorter prefixes belong to the pair units
-            part.transitions += 1
-            for sep2 in (1, 2):
-                part.states += 1
+    for j in (range(*js) if isinstance(js, tuple) else (js,)):
+        for lead in _triple_leads(tier):
+            for sep1 in (1, 2):
+                part.states += 1              # (lead, block i, sep1, block j); shorter prefixes belong to the pair units
                 part.transitions += 1
-                for k in range(POOL_SIZE):
+                for sep2 in (1, 2):
                     part.states += 1
                     part.transitions += 1
-                    case = {"lead": lead, "blocks": [P[i], P[j], P[k]], "seps": [sep1, sep2]}
-                    _do(part, case)
-                    part.extra["three-block documents"] += 1
-    if j == 0:
-        part.sample(case)
+                    for k in range(len(P)):
+                        part.states += 1
+                        part.transitions += 1
+                        case = {"lead": lead, "blocks": [P[i], P[j], P[k]], "seps": [sep1, sep2]}
+                        _do(part, case)
+                        part.extra["three-block documents"] += 1
+        if j == 0:
+            part.sample(case)
     return part
 
 
